@@ -254,7 +254,15 @@ class CounterToken(Token, FileSystemEventHandler):
         for path in self.path.glob("*.token"):
             tf = old_cache.get(path.name)
             if tf is None:
-                tf = TokenFile(path)
+                try:
+                    tf = TokenFile(path)
+                except ValueError:
+                    # Token files are only written with the IPC lock (that we
+                    # hold): an incomplete file was left by a process that
+                    # died before writing it, i.e. before starting its job
+                    logging.warning("Removing incomplete token file %s", path)
+                    path.unlink()
+                    continue
                 tf.watch()
                 logging.debug("Read token file %s (%d)", path, tf.count)
             else:
